@@ -28,7 +28,7 @@ DEFAULT_SPEC = (11, 'ATGAC')
 
 
 def budget(tier):
-	return {'quick': 1200, 'thorough': 20000}[tier]
+	return {'quick': 2000, 'thorough': 20000}[tier]
 
 
 def run_case(case, ctx):
